@@ -1,5 +1,5 @@
 #!/bin/bash
-# usage: fuzz.sh <fz_text|fz_machine|fz_tui> <runs per job> <seed> [jobs] [max_len]
+# usage: fuzz.sh <fz_text|fz_tokens|fz_machine|fz_tui> <runs per job> <seed> [jobs] [max_len]
 # Coverage-guided campaign (cargo-fuzz / libFuzzer, nightly) for the thorough tier.
 #  - fresh corpus directory per campaign, seeded with small valid inputs (+ an empty input)
 #  - fixed work: -runs=N -seed=S per job (a libFuzzer campaign is pinned only approximately)
@@ -12,7 +12,7 @@ set -u
 TARGET="$1"; RUNS="${2:-100000}"; SEED="${3:-1}"; JOBS="${4:-8}"; MAXLEN="${5:-768}"
 export CARGO_NET_OFFLINE=true
 case "$TARGET" in
-  fz_text|fz_machine) CRATE=/verif/harness; REPLAY=/verif/target/release/check ;;
+  fz_text|fz_tokens|fz_machine) CRATE=/verif/harness; REPLAY=/verif/target/release/check ;;
   fz_tui) CRATE=/verif/harness-bin; REPLAY=/verif/target/release/check-bin ;;
   *) echo "unknown target $TARGET"; exit 2 ;;
 esac
@@ -82,7 +82,7 @@ print(json.dumps({'property':l[1],'signature':l[2],'detail':l[3] if len(l)>3 els
 done
 cat > "$STATS" <<EOF
 {"key": "$KEY", "target": "$TARGET", "engine": "cargo-fuzz 0.13 / libFuzzer (nightly), ASan", "runs_per_job": $RUNS, "jobs": $JOBS, "seed": $SEED, "max_len": $MAXLEN,
- "executions": $EXECS, "coverage_edges": $COV, "corpus_files_at_end": $NCORP, "seed_corpus": "$( [ "$TARGET" = fz_text ] && echo "repository .asm files + empty input" || echo "48 pseudo-random files + empty input" )",
+ "executions": $EXECS, "coverage_edges": $COV, "corpus_files_at_end": $NCORP, "seed_corpus": "$( [ "$TARGET" = fz_text ] && echo "repository .asm files + empty input" || echo "48 pseudo-random files + empty input" )", "input_decoding": "$( case "$TARGET" in fz_text) echo "bytes taken as UTF-8 text (lossy)";; fz_tokens) echo "bytes decoded line by line into instruction templates / tokens of the mrasm vocabulary (harness/src/fuzzsupport.rs token_text)";; *) echo "hand-written byte decoder into the structured case of the check";; esac )",
  "wall_s": $((END-START)), "libfuzzer_exit": $RC, "unconfirmed_artifacts": $UNCONFIRMED, "findings": [$FINDINGS]}
 EOF
 rm -rf "$WORK"
